@@ -136,7 +136,7 @@ fn recs() -> &'static [TR; NREC] {
 
 /// Adversarial user lexers that ignore the expected set (C15).
 ///  mode 0: always a zero-width STOP; mode 1: kind derived from the position, one char long, STOP at
-///  the end; mode 2: like 1 but nothing at the end.
+///  the end; mode 2: like 1 but nothing at the end; mode 3: like 1 with the rest of the input as one long token.
 pub struct CustomLexer {
     pub mode: usize,
     pub seed: usize,
@@ -162,7 +162,8 @@ pub fn custom_tokens<'i>(
         return if mode == 1 { vec![stop()] } else { vec![] };
     }
     let ch = input[p..].chars().next().unwrap();
-    let v = &input[p..p + ch.len_utf8()];
+    // mode 3: like 1, but the whole rest of the input is ONE token
+    let v = if mode == 3 { &input[p..] } else { &input[p..p + ch.len_utf8()] };
     let kind = if nterms > 1 {
         1 + ((p * 7 + seed) % (nterms - 1))
     } else {
